@@ -84,3 +84,7 @@ Definition opt_eqb {X} (eqb : X -> X -> bool) (a b : option X) : bool :=
   | Some x, Some y => eqb x y
   | _, _ => false
   end.
+
+(* result of spec.localized(...): None / a specification / the call raises *)
+Inductive lres (X : Type) := LNone | LSome (x : X) | LError.
+Arguments LNone {X}. Arguments LSome {X} x. Arguments LError {X}.
